@@ -7,7 +7,8 @@
 // ---- what the (unverified) parser guarantees about a command it accepts: the preconditions the handlers rely on ----
 pub open spec fn cmd_wf(c: Command) -> bool {
     match c {
-        // keys, if given, are as many as channels (ParameterDoesntMatch otherwise); ASSUMED: no channel name is listed twice
+        // keys, if given, are as many as channels (ParameterDoesntMatch otherwise); no channel name is listed twice: the parser passes the
+        // list through dedup_join_list (PROVED, unit joinlist: distinct names) - that it does so is part of the assumed, pinned parser contract
         Command::JOIN { channels, keys } => (keys is Some ==> keys->0@.len() == channels@.len()) && distinct_names(channels@),
         // Command::validate: every letter that takes an argument has one, +l takes a number
         Command::MODE { target, modes } => all_mode_args_ok(modes@),
